@@ -120,6 +120,59 @@ def run(tier, seed):
                 vs.append(Violation(PROP, '%s:after-failed-write:bad-stream:%s' % (PROP, w), 'output opened after a failed write is not a complete stream: %s' % bad, {'case': small}))
             elif got != want:
                 vs.append(Violation(PROP, '%s:after-failed-write:content:%s' % (PROP, w), 'after a failed %d-byte write and a rotation, the new output decompresses to %d bytes, the writes after the rotation amount to %d' % (big, len(got), len(want)), {'case': small}))
+        # ---- rotation of a named output onto the very name it is writing (clock-derived names within one tick): the output closed by
+        #      the rotation is one complete stream with the bytes written so far; the next one replaces it under the same name
+        scases, sexp = [], []
+        for i in range(45 if tier == 'quick' else 300):
+            r = gen.seeded(seed, 'C14s', i)
+            w = ['gzip', 'xz', 'none'][i % 3]
+            segs = [[r.choice([0, 1, 7, 100, 2048, 5000, 70000]) for _ in range(r.choice([0, 1, 1, 3]))] for _ in range(r.choice([2, 2, 3]))]
+            blob = make_data(r, sum(sum(x) for x in segs), r.choice(['text', 'random']))
+            dp = os.path.join(wd, 'sin_%05d.bin' % i)
+            with open(dp, 'wb') as f:
+                f.write(blob)
+            steps, parts, pos = [], [], 0
+            for k, sg in enumerate(segs):
+                if k:
+                    steps.append({'rot': True, 'same': True})
+                steps += [{'n': x} for x in sg]
+                parts.append(blob[pos:pos + sum(sg)])
+                pos += sum(sg)
+            scases.append({'id': 's%05d' % i, 'w': w, 'kind': 'name', 'data': dp, 'out': os.path.join(wd, 'sout_%05d' % i), 'steps': steps})
+            sexp.append((parts, w))
+        sres, scr, wd5 = runner.run_cases('asan', 'writer', scases, 'c14s', timeout=900)
+        runner.cleanup(wd5)
+        for c in scr:
+            vs.append(Violation(PROP, '%s:same-name-rotation:%s' % (PROP, c.key_tail()), 'writer died when rotated onto its current name: %s in %s' % (c.cls, c.func), {'case': {k: v for k, v in scases[c.case_index].items() if k != 'data'}, 'report': c.excerpt}))
+        same_rot = 0
+        for i, (case, (parts, w)) in enumerate(zip(scases, sexp)):
+            r = sres.get(i)
+            if r is None:
+                continue
+            small = {k: v for k, v in case.items() if k != 'data'}
+            excs = [x for x in r['log'] if isinstance(x, dict) and 'exc' in x]
+            if excs:
+                vs.append(Violation(PROP, '%s:same-name-rotation:exception:%s' % (PROP, w), 'rotation onto the current name threw %s' % excs[0], {'case': small}))
+                continue
+            snaps = [x for x in r['log'] if isinstance(x, dict) and x.get('rot_same')]
+            files = [(x['snap'] if x['final_exists'] else None) for x in snaps] + [r['outs'][0]]
+            for k, (path, want) in enumerate(zip(files, parts)):
+                same_rot += 1
+                what = 'output closed by rotation %d onto its own name' % k if k < len(parts) - 1 else 'last output'
+                try:
+                    raw = open(path, 'rb').read() if path else None
+                except OSError:
+                    raw = None
+                if raw is None:
+                    vs.append(Violation(PROP, '%s:same-name-rotation:missing:%s' % (PROP, w), '%s does not exist under its final name' % what, {'case': small}))
+                    continue
+                try:
+                    data = pipeline.decompress(w, raw)
+                except pipeline.StreamError as x:
+                    vs.append(Violation(PROP, '%s:same-name-rotation:bad-stream:%s' % (PROP, w), '%s is not one complete %s stream: %s' % (what, w, x), {'case': small}))
+                    continue
+                if data != want:
+                    vs.append(Violation(PROP, '%s:same-name-rotation:content:%s' % (PROP, w), '%s holds %d bytes, the writes to it amount to %d' % (what, len(data), len(want)), {'case': small}))
         # ---- the same (small) sequences once more with 8 independent writer instances working concurrently in one process
         small_idx = [i for i, e in enumerate(exps) if e[4] < MiB][:160 if tier == 'quick' else 1200]
         ccases = []
@@ -193,7 +246,7 @@ def run(tier, seed):
                     first = next((k for k in range(min(len(data), len(want))) if data[k] != want[k]), min(len(data), len(want)))
                     vs.append(Violation(PROP, '%s:content:%s:%s' % (PROP, w, 'big-chunk' if mx >= MiB else 'small-chunks'),
                                         '%s/%s output decompresses to %d bytes, the writes amount to %d; first difference at %d (largest chunk %d)' % (w, kind, len(data), len(want), first, mx), {'case': small}))
-        obs = dict(sequences=len(cases), sequences_with_failing_first_destination=fault_runs, outputs_checked_from_concurrent_writers=conc_checked, outputs_decompressed_and_compared=outs_checked, plain_bytes=total, largest_single_write=biggest, empty_outputs=empties,
+        obs = dict(sequences=len(cases), outputs_checked_around_same_name_rotations=same_rot, sequences_with_failing_first_destination=fault_runs, outputs_checked_from_concurrent_writers=conc_checked, outputs_decompressed_and_compared=outs_checked, plain_bytes=total, largest_single_write=biggest, empty_outputs=empties,
                    writers={w: sum(1 for e in exps if e[1] == w) for w in ('gzip', 'xz', 'none')})
         cov = dict(evaluations=len(cases), distinct_nontrivial=len(cases),
                    rule='chunk sequences (compressible, incompressible, empty; chunk sizes 0 B .. 32 MiB; 0-6 rotations) through Gzip/Xz/CborOutputWriter, named and descriptor outputs; '
